@@ -82,6 +82,12 @@ def gen_fast_case(rng, malformed=False, small=False):
             jds.append([0] * T)
         else:
             jds.append([rng.randint(0, 2 if small else 4) for _ in range(T)])
+    if T >= 2 and rng.random() < 0.2:
+        # coincidences: two topologies with identical degree columns and the same callback / size
+        a, b = rng.sample(range(T), 2)
+        for r in jds:
+            r[b] = r[a]
+        builds[b], sizes[b] = builds[a], sizes[a]
     if not malformed:
         fix_handshake(rng, jds, sizes)
     else:
